@@ -14,6 +14,9 @@ CHECKS['C03'] = dict(text='Every ASCII string up to the stated length is pushed 
 CHECKS['C05'] = dict(text='Every byte string (all 256 values per position) up to the stated length is executed symbolically through the real dependency.Parse, the String()/MarshalControl renderers and Parse/UnmarshalControl again (go/ssa, path enumeration; branch feasibility by per-byte domains and z3); on every accepted path the re-parse must succeed and be structurally identical. Likewise ParseArch/String/ParseArch and UnmarshalControl/MarshalControl for every ASCII architecture name up to its bound.',
              note='Trusted: go/ssa, the interpreter and its contract models (strings.SplitN/Join, UTF-8 encoding of string(rune)), z3. Structural equality is the harness function eqDependency.',
              ref='DESIGN.md 2/C05')
+CHECKS['C04'] = dict(text='The driver builds a symbolic dependency AST (shapes enumerated exhaustively up to the stated bound, leaves symbolic over the Policy alphabets), renders it with its own renderer in several whitespace layouts (including symbolic space/tab/newline bytes), and the real Parse and UnmarshalControl (go/ssa, path enumeration decided by byte domains and z3) must return exactly that AST, compared through a canonical dump that does not use String(). Each malformed class of the statement, as a template with symbolic leaves, must give an error and a nil result.',
+             note='Trusted: go/ssa, the interpreter and its models, z3; the independent renderer and the canonical dump in the harness are the oracle. Whitespace slots follow Policy 7.1 and the spacing dpkg/Dpkg::Deps accept; a name directly followed by [ or < is not demanded.',
+             ref='DESIGN.md 2/C04')
 NA = {}
 props = [json.loads(l) for l in open(os.path.join(V, 'properties.jsonl'))]
 checks = []
